@@ -531,3 +531,36 @@ Definition S_durable_refuted_local_only : Prop :=
     gtrace true true marks cont acc any_okop n dbid r g effs /\
     exists h, In h (acked (firstn k effs)) /\
               ~ In h (hashes (lents (recover false dbid acc (disk_at effs k)))).
+
+(** * Network convergence (C02) *)
+From Orbit Require Export Model.Net.
+
+Definition same_setN (a b : list N) : Prop := forall x, In x a <-> In x b.
+
+(** After writes stop and all links are up, for EVERY history of writes interleaved with
+    arbitrary gains (any loss, duplication, reordering of announcements, any partition,
+    any restart): after the final phase all replicas hold the same entries, and these are
+    all the entries ever written — hence (C01) they show the same state. *)
+Definition S_net_converges : Prop :=
+  forall n steps a b ra rb,
+    (2 <= n)%nat ->
+    let s := final_phase (nrun steps (ninit n)) in
+    nth_error (n_reps s) a = Some ra -> nth_error (n_reps s) b = Some rb ->
+    same_setN (n_log ra) (n_log rb) /\
+    (forall h, In h (map u_hash (n_univ s)) -> In h (n_log ra)).
+
+(** the invariant that makes it work: every held entry is in the ancestry of a cached head
+    (what AddOperation and the merge persist), and every entry is held by its writer *)
+Definition S_net_cover : Prop :=
+  forall n steps i rp,
+    let s := nrun steps (ninit n) in
+    nth_error (n_reps s) i = Some rp ->
+    (forall h, In h (n_log rp) -> In h (anc_set (n_univ s) (n_cached rp))) /\
+    (forall h, In (h, i) (n_owner s) -> In h (n_log rp)).
+
+(** without persisting the heads of merged batches (cached heads = own writes only) a
+    replica that only relays entries cannot pass them on: convergence fails *)
+Definition S_net_refuted_without_remote_heads : Prop :=
+  exists U (a b : nrep),
+    (forall h, In h (n_log a) -> In h (map u_hash U)) /\
+    ~ same_setN (n_log (exchange U (mkNR (n_log a) []) b)) (n_log (exchange U a b)).
